@@ -1565,6 +1565,22 @@ func (c *ctx) stmts(list []ast.Stmt) string {
 			bad(x.Pos(), "a function with opaque callees must return the opaque call on every path")
 		}
 		if len(x.Results) == 1 && c.results.Len() > 1 {
+			// return oracle(..): the results of the oracle call are the results of the function
+			if call, ok := x.Results[0].(*ast.CallExpr); ok {
+				if on := c.oracleName(call); on != "" {
+					names := c.oracleResults(call, on)
+					if len(names) != c.results.Len() {
+						bad(x.Pos(), "return of oracle call %s: %d results expected", on, c.results.Len())
+					}
+					for i, nm := range names {
+						if nm == "" || kindOf(c.results.At(i).Type()) == "blocks" {
+							bad(x.Pos(), "return of oracle call %s: result %d is outside the subset", on, i)
+						}
+						vals = append(vals, nm)
+					}
+					return guardWrap(g, c.ret(vals))
+				}
+			}
 			bad(x.Pos(), "return of a multi-value call is not supported")
 		}
 		for i, r := range x.Results {
